@@ -40,7 +40,8 @@ fn pattern(r: &mut Rng) -> String {
                          "local d5 = { a = 1, b = 2, [\"a b\"] = 3 }", "local d6 = { 1, 2, [3] = 3, 4 }", "local d7 = { [\"1\"] = 1, 2 }", "f{ x = 1, x = 2, x = 3 }",
                          "local d8 = { [ [[k]] ] = 1, k = 2 }", "local d9 = { [x] = 1, [x] = 2 }",
                          "local e1 = { [261723845] = 1, [261723846] = 2 }", "local e2 = { [16777216] = 1, [16777217] = 2 }", "local e3 = { [0.1] = 1, [0.100000001] = 2 }",
-                         "local e4 = { [1700000001] = \"a\", [1700000002] = \"b\", [1e10] = 1, [10000000001] = 2 }", "local e5 = { [0x10] = 1, [16] = 2, [0xff] = 3, [255.5] = 4 }"])).to_string(),
+                         "local e4 = { [1700000001] = \"a\", [1700000002] = \"b\", [1e10] = 1, [10000000001] = 2 }", "local e5 = { [0x10] = 1, [16] = 2, [0xff] = 3, [255.5] = 4 }",
+                         "local p1 = { k = 1, [\"k \"] = 2 }", "local p2 = { [\" k\"] = 1, k = 2, [\"k\\n\"] = 3 }", "local p3 = { [\"a b\"] = 1, [\"a b \"] = 2, [ [[\nk]] ] = 3, k = 4 }", "local p4 = { [\"K\"] = 1, k = 2, [\"\"] = 3, [\" \"] = 4 }"])).to_string(),
         14 => (*r.pick(&["if (x) then print(1) end", "while (x) do print(1) end", "repeat print(1) until (x)", "if x then print(1) elseif (y) then print(2) end",
                          "if (x) or (y) then print(1) end", "if (x)(y) then print(1) end", "while ((x)) do print(1) end",
                          "if (f()) then print(1) end", "while (t:m()) do print(1) end", "repeat print(1) until (...)", "if (not f()) then print(1) elseif (f()) then print(2) end"])).to_string(),
